@@ -512,6 +512,7 @@ func (e *Engine) execInstr(s *State, gi int, g *G, fr *Frame, instr ssa.Instruct
 		switch x := xv.(type) {
 		case MapV:
 			k := e.operand(fr, in.Index)
+			e.raceMap(s, gi, x.obj, false, in)
 			var v Value
 			found := false
 			if x.obj != 0 {
@@ -552,6 +553,7 @@ func (e *Engine) execInstr(s *State, gi int, g *G, fr *Frame, instr ssa.Instruct
 		}
 		k := e.operand(fr, in.Key)
 		v := e.operand(fr, in.Value)
+		e.raceMap(s, gi, m.obj, true, in)
 		i := e.mapFind(s, e.obj(s, m.obj).m, k)
 		o := e.wobj(s, m.obj)
 		if i >= 0 {
@@ -565,6 +567,7 @@ func (e *Engine) execInstr(s *State, gi int, g *G, fr *Frame, instr ssa.Instruct
 		var it *IterV
 		switch x := xv.(type) {
 		case MapV:
+			e.raceMap(s, gi, x.obj, false, in)
 			it = &IterV{m: x.obj}
 			if x.obj != 0 {
 				it.keys = append([]Value(nil), e.obj(s, x.obj).m.keys...)
